@@ -706,5 +706,7 @@ _instances_before_degenerate = instances
 
 
 def instances(tier):       # noqa: F811
-    return _instances_before_degenerate(tier) + [fit_predict_degenerate_bounded_instance(), fit_predict_degenerate_bounded_instance(pinned='cacg-zero-bin'),
+    # the E-step of the integration models with the inline aligner on: Bayes' rule with the stored weights on the re-paired streams
+    from .c14 import integration_pa_bounded_instance
+    return _instances_before_degenerate(tier) + [integration_pa_bounded_instance('C01'), fit_predict_degenerate_bounded_instance(), fit_predict_degenerate_bounded_instance(pinned='cacg-zero-bin'),
                                                   fit_predict_degenerate_bounded_instance(pinned='cbmm-few-frames')]
